@@ -2212,3 +2212,107 @@ pub fn run_memory(ctx: &Ctx, report: &mut Report) {
 pub fn replay_memory(ctx: &Ctx, sub: &str, case: &serde_json::Value) -> SubResult {
     replay_case::<MemoryCase, _>(ctx, sub, case, exec_memory)
 }
+
+// ------------------------------------------------------------------------------------------
+// C16 sub-check: one node receives a long run of SYNs of another cluster whose id is related to
+// its own (own id + suffix, a prefix of it, a case variant, one character changed), with ids of
+// lengths around 64 / 128 / 256 / 512 / 1,024 bytes: every one of them is answered with a
+// rejection and leaves membership and failure-detector state untouched - the 1st like the 256th
+// and the 1,000th.
+
+#[derive(Clone, Debug, Serialize, Deserialize)]
+pub struct ForeignCase {
+    pub own_len_sel: u8,
+    /// A two-byte character straddles the last byte positions of the own id.
+    pub multibyte: bool,
+    /// 0 own+"-canary", 1 own+"x", 2 own minus its last character, 3 case variant, 4 last character changed, 5 unrelated
+    pub relation: u8,
+    pub count_sel: u8,
+    pub digest_members: u8,
+}
+
+pub fn exec_foreign(case: &ForeignCase, tally: &mut Tally) -> Result<(), Failure> {
+    with_paused_runtime(async {
+        let mon = Monitor::C16;
+        let len = [0usize, 1, 3, 63, 64, 127, 128, 255, 256, 257, 300, 511, 512, 1024][case.own_len_sel as usize % 14];
+        let mut own: String = (0..len).map(|i| (b'a' + (i % 26) as u8) as char).collect();
+        if case.multibyte && len >= 2 {
+            own.truncate(len - 2);
+            own.push('é');
+        }
+        let mut foreign = match case.relation % 6 {
+            0 => format!("{own}-canary"),
+            1 => format!("{own}x"),
+            2 => {
+                let mut f = own.clone();
+                f.pop();
+                f
+            }
+            3 => own.to_uppercase(),
+            4 => {
+                let mut f = own.clone();
+                f.pop();
+                f.push('#');
+                f
+            }
+            _ => "another-cluster".to_string(),
+        };
+        if foreign == own {
+            foreign.push_str("-other");
+        }
+        let count = [1usize, 5, 255, 256, 257, 300, 513, 1030][case.count_sel as usize % 8];
+        let id = simple_id("n", 0, 7000);
+        let mut node = build_node(&id, &own, Duration::from_secs(3600), &FdCfg::default(), false, 0).chitchat;
+        node.self_node_state().set("secret", "1");
+        let members: Vec<WId> = (0..case.digest_members as usize % 4).map(|i| WId::v4(&format!("f{i}"), 0, 7100 + i as u16)).collect();
+        let before_members = node.node_states().len();
+        for k in 0..count {
+            let mut digest: Vec<WNodeDigest> = members.iter().map(|m| WNodeDigest { id: m.clone(), heartbeat: 1 + k as u64, last_gc: 0, max_version: 0 }).collect();
+            sort_digest_real_order(&mut digest);
+            let (bytes, _) = encode_msg(&WMsg::Syn { cluster_id: foreign.clone(), digest }, Blocking::Canonical);
+            let msg = match real_decode(&bytes) {
+                Ok((m, _)) => m,
+                Err(e) => {
+                    tally.discard(&format!("undecodable: {}", e.chars().take(40).collect::<String>()));
+                    return Ok(());
+                }
+            };
+            let reply = match guard(|| node.verif_process_message(msg)) {
+                Ok(r) => r,
+                Err(p) => return Err(fail(mon, &p.signature(), format!("processing foreign SYN number {} panicked: {}", k + 1, p.describe()))),
+            };
+            let rejected = matches!(reply.as_ref().map(chitchat::verif::verif_describe), Some(chitchat::verif::VerifMessage::BadCluster));
+            if !rejected || node.node_states().len() != before_members {
+                return Err(fail(
+                    mon,
+                    "foreign-syn-accepted",
+                    format!("own cluster id of {} bytes, foreign id of {} bytes (relation {}): foreign SYN number {} of {count} was {} and the node now knows {} members (was {before_members})", own.len(), foreign.len(), case.relation % 6, k + 1, if rejected { "rejected" } else { "NOT answered with a rejection" }, node.node_states().len()),
+                ));
+            }
+        }
+        node.verif_update_nodes_liveness();
+        if node.live_nodes().count() != 1 || node.dead_nodes().count() != 0 {
+            return Err(fail(mon, "foreign-syn-changed-liveness", format!("after {count} foreign SYNs the node lists {} live and {} dead members", node.live_nodes().count(), node.dead_nodes().count())));
+        }
+        tally.nontrivial(str_hash(&format!("{case:?}")));
+        if count >= 256 {
+            tally.label("256_or_more_foreign_syns");
+        }
+        if own.len() >= 255 && case.relation % 6 <= 1 {
+            tally.label("long_own_id_is_a_prefix_of_the_foreign_id");
+        }
+        Ok(())
+    })
+}
+
+pub fn foreign_strategy() -> impl Strategy<Value = ForeignCase> {
+    (0u8..14, proptest::bool::weighted(0.3), 0u8..6, 0u8..8, 0u8..4).prop_map(|(own_len_sel, multibyte, relation, count_sel, digest_members)| ForeignCase { own_len_sel, multibyte, relation, count_sel, digest_members })
+}
+
+pub fn run_foreign(ctx: &Ctx, report: &mut Report) {
+    report.push(run_proptest(ctx, "foreign-syn-runs", ctx.cases(1_600, 60_000), 100, foreign_strategy, exec_foreign));
+}
+
+pub fn replay_foreign(ctx: &Ctx, sub: &str, case: &serde_json::Value) -> SubResult {
+    replay_case::<ForeignCase, _>(ctx, sub, case, exec_foreign)
+}
